@@ -271,11 +271,18 @@ Fixpoint run_from (K : Z) (st : state) (ops : list word) : list word :=
   | op :: r => let st' := step K st op in obs_of K st' :: run_from K st' r
   end.
 
+(* cfg = [K] or [K; sym].  sym = 1 marks a case whose last interval has several
+   simultaneous outliers while max_ejection_percent binds: which of them the real code
+   ejects depends on Go's random map order, so for such a case only the order-independent
+   part of each observation (counter, clock, number of ejected endpoints) is compared with
+   the model; the per-endpoint records are still judged by every clause. *)
 Definition cfg_K (c : word) : option Z :=
   match c with
   | [K] => if (1 <=? K) && (K <=? 64) then Some K else None
+  | [K; s] => if (1 <=? K) && (K <=? 64) && ((s =? 0) || (s =? 1)) then Some K else None
   | _ => None
   end.
+Definition cfg_sym (c : word) : bool := match c with [_; 1] => true | _ => false end.
 
 Definition run (c : word) (ops : list word) : option (list word) :=
   match cfg_K c with Some K => Some (run_from K init ops) | None => None end.
@@ -385,6 +392,32 @@ Definition cl3 (K : Z) (fr : option (conf * state)) (o : word) : bool :=
       end) (names K)
   end.
 
+(* how many ejections max_ejection_percent admits from counter value k on: the length of the
+   run of negative tests share_ge k, share_ge (k+1), ... (at most f of them) *)
+Fixpoint room (f : nat) (k n mx : Z) : Z :=
+  match f with
+  | O => 0
+  | S f' => if share_ge k n mx then 0 else 1 + room f' (k + 1) n mx
+  end.
+(* number of endpoints whose record in observation o carries ejection time t *)
+Definition o_count_now (K : Z) (o : word) (t : Z) : Z :=
+  Z.of_nat (length (filter (ejected_now o t) (names K))).
+Definition count_at (t : Z) (l : list (Z * ep)) : Z :=
+  fold_right (fun p acc => match ej (snd p) with
+                           | Some x => if x =? t then acc + 1 else acc
+                           | None => acc
+                           end) 0 l.
+
+(* clause 11: the number of endpoints ejected at this interval is at most the number of
+   ejections max_ejection_percent admits from the counter value the interval started with *)
+Definition cl11 (K : Z) (fr : option (conf * state)) (o : word) : bool :=
+  match fr with
+  | None => true
+  | Some (c, sm) =>
+    o_count_now K o (nth 1 o 0) <=?
+    room (2 * length (eps sm)) (numej sm) (len (eps sm)) (maxpct c)
+  end.
+
 Definition clause_op (K : Z) (st st' : state) (prev op o : word) (i : Z) : list (Z * Z * bool) :=
   if Z.of_nat (length o) <? 3 + 6 * K then [(0, i, false)] else
   let fr := fired K st op in
@@ -392,6 +425,7 @@ Definition clause_op (K : Z) (st st' : state) (prev op o : word) (i : Z) : list 
   [ (1, i, cl1 K fr prev o);
     (2, i, cl2 K fr o);
     (3, i, cl3 K fr o);
+    (11, i, cl11 K fr o);
     (4, i, match op with
            | 1 :: w => match decode_config K w with
                        | Some (c, _) => if noop c then
@@ -428,6 +462,9 @@ Definition clause_op (K : Z) (st st' : state) (prev op o : word) (i : Z) : list 
                 else true) (names K)
             end) ].
 
+(* clauses of the open findings *)
+Definition is_finding (id : Z) : bool := (8 <=? id) && (id <=? 10).
+
 Fixpoint clauses_from (K : Z) (st : state) (prev : word) (i : Z) (ops obs : list word)
   : list (Z * Z * bool) :=
   match ops, obs with
@@ -444,24 +481,22 @@ Definition clauses (c : word) (ops obs : list word) : list (Z * Z * bool) :=
   match cfg_K c with
   | Some K =>
     let l := clauses_from K init (obs_of K init) 0 ops obs in
-    filter (fun c => fst (fst c) <? 8) l ++ filter (fun c => 8 <=? fst (fst c)) l
+    filter (fun c => negb (is_finding (fst (fst c)))) l ++ filter (fun c => is_finding (fst (fst c))) l
   | None => [(0, 0, false)]
   end.
 
 (* all clauses but the refuted ones (8-10) *)
 Definition holds_b (c : word) (ops obs : list word) : bool :=
-  forallb (fun c => (8 <=? fst (fst c)) || snd c) (clauses c ops obs).
+  forallb (fun c => is_finding (fst (fst c)) || snd c) (clauses c ops obs).
 (* the clauses covered by the (partial) bridge theorem: 0, 4, 5, 6, 7 *)
 Definition covered (id : Z) : bool :=
   (id =? 0) || (id =? 4) || (id =? 5) || (id =? 6) || (id =? 7).
 Definition holds_cov_b (c : word) (ops obs : list word) : bool :=
   forallb (fun c => negb (covered (fst (fst c))) || snd c) (clauses c ops obs).
 
-(* the standard verdict on all clauses but the known-finding ones (8-10) first, so that a
-   known finding never hides a disagreement between model and implementation *)
+(* decide reports every false clause and the first differing observation together; for a
+   sym case the observations are compared on their first three numbers only *)
 Definition check_case (c : case) : verdict :=
-  let cl := clauses (c_cfg c) (c_ops c) (c_obs c) in
-  match decide (run (c_cfg c) (c_ops c)) (c_obs c) (filter (fun x => fst (fst x) <? 8) cl) with
-  | Agree => decide (run (c_cfg c) (c_ops c)) (c_obs c) cl
-  | v => v
-  end.
+  let proj := fun o : word => if cfg_sym (c_cfg c) then firstn 3 o else o in
+  decide (option_map (map proj) (run (c_cfg c) (c_ops c))) (map proj (c_obs c))
+         (clauses (c_cfg c) (c_ops c) (c_obs c)).
